@@ -42,8 +42,8 @@ _RULES = None
 def all_rule_ids():
     global _RULES
     if _RULES is None:
-        code, out, err = impl.run_cli(["plugins", "list", "--all"])
-        _RULES = sorted(set(re.findall(r"^\s*(md\d{3})\s", out, re.M)))
+        from translate.rule_table import read_rules
+        _RULES = sorted(r["id"] for r in read_rules(core.REPO))
     return _RULES
 
 
@@ -55,9 +55,12 @@ def scan_doc(job):
     def once():
         api = PyMarkdownApi()
         if config == "all":
-            api.enable_rule_by_identifier("*")
+            for other in all_rule_ids():        # there is no enable wildcard
+                api.enable_rule_by_identifier(other)
         elif config.startswith("only:"):
-            api.disable_rule_by_identifier("*")
+            for other in all_rule_ids():        # "-d *" would win over "-e"
+                if other != config[5:]:
+                    api.disable_rule_by_identifier(other)
             api.enable_rule_by_identifier(config[5:])
         try:
             r = api.scan_string(doc)
